@@ -8,6 +8,9 @@ pub mod c04;
 pub mod c05;
 pub mod c06;
 pub mod c07;
+pub mod c08;
+pub mod c09;
+pub mod c10;
 
 pub fn run(prop: &str, opts: &Opts) -> bool {
     match prop {
@@ -19,6 +22,9 @@ pub fn run(prop: &str, opts: &Opts) -> bool {
         "c05" => c05::run(opts),
         "c06" => c06::run(opts),
         "c07" => c07::run(opts),
+        "c08" => c08::run(opts),
+        "c09" => c09::run(opts),
+        "c10" => c10::run(opts),
         _ => return false,
     }
     true
